@@ -2,10 +2,10 @@
 package gen
 
 import (
-	"sort"
 	"fmt"
 	"math"
 	"math/rand"
+	"sort"
 	"strings"
 
 	"github.com/EliCDavis/polyform/modeling"
